@@ -220,7 +220,7 @@ def _gen_leaf(ctx: _Ctx, cls: type, tp, kafka_type: str):
     flexible = cls.__flexible__
     if kafka_type in ("bytes", "records") and ctx.shape["str"] == "huge" and ctx.big_left > 0:
         ctx.big_left -= 1
-        return rng.randbytes(rng.choice(_HUGE_SIZES))
+        return rng.randbytes(rng.choice(ctx.shape.get("huge_sizes") or _HUGE_SIZES))
     if kafka_type in ("int8", "int16", "int32", "int64", "uint8", "uint16", "uint32", "uint64"):
         lo, hi = _int_range(tp, kafka_type)
         return _gen_int(rng, lo, hi)
